@@ -531,6 +531,9 @@ pub fn c19(tier: Tier) -> i32 {
     let l = tier.pick(4usize, 6usize);
     for_each_glob(&rep, &opts, &|e, g, c| {
         let base = answers(g);
+        if e.text.len() <= 2 || e.pass == "corpus" {
+            rep.sample(json!({"expression": e.text, "program": base.program, "routes": ["Display+new", "Clone", "into_owned", "FromStr", "TryFrom", "any([text])", "any([compiled])", "any([owned])", "any([any])", "partition owned/borrowed", "MatchedText to_owned/into_owned"]}));
+        }
         let mut routes: Vec<(&'static str, Glob<'static>)> = vec![];
         let shown = g.to_string();
         match Glob::new(&shown) {
